@@ -107,11 +107,13 @@ def jobs(tier):
                         continue
                     if q and max(size) > 2 and not spec.name.startswith(('melody', 'alignment', 'key', 'tempo')):
                         continue
+                    if spec.name.startswith(('transcription', 'segment.detection')) and sum(size) > (3 if q else 4):
+                        continue
                     js.append(mono_job(spec, size, kwname, outs))
         if spec.nested:
             for size in sizes:
                 js.append(nested_job(spec, size))
-    for size in ([(1, 1), (2, 2)] if q else [(1, 1), (2, 2), (2, 3)]):
+    for size in ([(1, 1), (1, 2)] if q else [(1, 1), (1, 2), (2, 1), (2, 2)]):
         js.append(transcription_nested(size, False))
-    js.append(transcription_nested((2, 2), True))
+    js.append(transcription_nested((1, 2), True))
     return js
